@@ -49,6 +49,36 @@ Qed.
 Lemma cnt_ev_tag_acc name t l k o ok : cnt_ev name t l (Conc.tag t [EvAcc k o ok]) = 0.
 Proof. cbn. rewrite Nat.eqb_refl. reflexivity. Qed.
 
+(** successful acquisitions of m_spin (CAS 0->1 that succeeded, or the owner's fetch_add) *)
+Definition acq_is (l : nat) (e : ev) : bool :=
+  match e with
+  | EvAcc KCas [0; y] true => Z.eqb y (Z.of_nat l)
+  | EvAcc KFaa [0; y] _ => Z.eqb y (Z.of_nat l)
+  | _ => false
+  end.
+Fixpoint cnt_acq (t l : nat) (tr : list (nat * ev)) : Z :=
+  match tr with
+  | [] => 0
+  | (t', e) :: r => (if Nat.eqb t' t && acq_is l e then 1 else 0) + cnt_acq t l r
+  end.
+(** [acqp t l tr]: acquisitions of l by t that are not yet followed by their "enter": t is inside lock()/try_lock()
+    and has already taken the lock word *)
+Definition acqp (t l : nat) (tr : list (nat * ev)) : Z := cnt_acq t l tr - cnt_ev "enter" t l tr.
+
+Lemma cnt_acq_app t l tr tr' : cnt_acq t l (tr ++ tr') = cnt_acq t l tr + cnt_acq t l tr'.
+Proof. induction tr as [|[t' e] r IH]; cbn [cnt_acq app]; lia. Qed.
+Lemma cnt_acq_tag_other t t' l es : t' <> t -> cnt_acq t l (Conc.tag t' es) = 0.
+Proof.
+  intros H. induction es as [|e r IH]; cbn; [reflexivity|].
+  destruct (Nat.eqb_spec t' t); [congruence|]. cbn. exact IH.
+Qed.
+Lemma cnt_acq_tag1 t l e : cnt_acq t l (Conc.tag t [e]) = if acq_is l e then 1 else 0.
+Proof. cbn. rewrite Nat.eqb_refl. cbn. destruct (acq_is l e); reflexivity. Qed.
+Lemma acq_is_faa l0 l ok : acq_is l0 (EvAcc KFaa (obj_spin l) ok) = Nat.eqb l l0.
+Proof. cbn. destruct (Z.eqb_spec (Z.of_nat l) (Z.of_nat l0)); destruct (Nat.eqb_spec l l0); try lia; reflexivity. Qed.
+Lemma acq_is_cas l0 l : acq_is l0 (EvAcc KCas (obj_spin l) true) = Nat.eqb l l0.
+Proof. cbn. destruct (Z.eqb_spec (Z.of_nat l) (Z.of_nat l0)); destruct (Nat.eqb_spec l l0); try lia; reflexivity. Qed.
+
 (** ** auxiliary state *)
 Inductive phase :=
 | Idle
@@ -83,13 +113,18 @@ Definition own (v : tv) (l : nat) : Z :=
 Definition ins (v : tv) (l : nat) : Z :=
   K (snd v) l + match fst v with Left l' | Freeing l' | Rel l' => - d l' l | _ => 0 end.
 
+(** lock word taken inside lock(), "enter" not yet emitted *)
+Definition aq (v : tv) (l : nat) : Z :=
+  match fst v with Acq l' | Got l' => d l' l | _ => 0 end.
+
 Definition Inv (g : G) (a : Aux) (tr : list (nat * ev)) : Prop :=
   (forall t l, hold (a t) l > 0 -> Z.of_nat (spin g l) = hold (a t) l) /\
   (forall t t' l, hold (a t) l > 0 -> hold (a t') l > 0 -> t = t') /\
   (forall t l, owner g l = S t -> own (a t) l > 0) /\
   (forall t l, nestc t l tr = K (snd (a t)) l /\ occ t l tr = ins (a t) l) /\
   (forall l, (spin g l > 0)%nat -> exists t, hold (a t) l > 0) /\
-  (forall t l, 0 <= ins (a t) l).
+  (forall t l, 0 <= ins (a t) l) /\
+  (forall t l, acqp t l tr = aq (a t) l).
 
 Definition upd (a : Aux) (t : nat) (v : tv) : Aux := fun x => if Nat.eqb x t then v else a x.
 Lemma upd_same a t v : upd a t v t = v.
@@ -118,9 +153,10 @@ Lemma step_inv g a tr t l v' g' es :
   (forall t', t' <> t -> owner g' l = S t' -> owner g l = S t') ->
   ((spin g' l > 0)%nat -> hold v' l > 0 \/ ((spin g l > 0)%nat /\ hold (a t) l <= 0)) ->
   (forall l0, 0 <= ins v' l0) ->
+  (forall l0, cnt_acq t l0 (Conc.tag t es) - cnt_ev "enter" t l0 (Conc.tag t es) = aq v' l0 - aq (a t) l0) ->
   Inv g' (upd a t v') (tr ++ Conc.tag t es).
 Proof.
-  intros (I1 & I2 & I3 & I4 & I5 & I6) Hg Hv Hn Ho C1 C2 C3 C4 C5 C6 C7.
+  intros (I1 & I2 & I3 & I4 & I5 & I6 & I7) Hg Hv Hn Ho C1 C2 C3 C4 C5 C6 C7 C8.
   repeat split.
   - (* I1 *)
     intros t0 l0 H. destruct (Nat.eq_dec l0 l) as [->|Hl].
@@ -180,6 +216,11 @@ Proof.
     intros t0 l0. destruct (Nat.eq_dec t0 t) as [->|Ht].
     + rewrite upd_same. apply C7.
     + rewrite upd_other by exact Ht. apply I6.
+  - (* I7 *)
+    intros t0 l0. unfold acqp. rewrite cnt_acq_app, cnt_ev_app. specialize (I7 t0 l0). unfold acqp in I7.
+    destruct (Nat.eq_dec t0 t) as [->|Ht].
+    + rewrite upd_same. specialize (C8 l0). lia.
+    + rewrite upd_other by exact Ht. rewrite cnt_acq_tag_other, cnt_ev_tag_other by congruence. lia.
 Qed.
 
 (** ** helpers *)
@@ -197,31 +238,39 @@ Qed.
 
 (** events that are not "enter"/"leave"/"rel" of one lock leave the invariant alone *)
 Definition quiet (t : nat) (es : list ev) : Prop :=
-  forall name t0 l0, cnt_ev name t0 l0 (Conc.tag t es) = 0 \/ (name <> "enter" /\ name <> "leave" /\ name <> "rel").
+  (forall name t0 l0, cnt_ev name t0 l0 (Conc.tag t es) = 0 \/ (name <> "enter" /\ name <> "leave" /\ name <> "rel")) /\
+  (forall t0 l0, cnt_acq t0 l0 (Conc.tag t es) = 0).
 
 Lemma Inv_quiet g a tr t es : quiet t es -> Inv g a tr -> Inv g a (tr ++ Conc.tag t es).
 Proof.
-  intros Hq (I1 & I2 & I3 & I4 & I5 & I6). repeat split; auto.
+  intros [Hq Hqa] (I1 & I2 & I3 & I4 & I5 & I6 & I7). repeat split; auto.
   - unfold nestc. rewrite !cnt_ev_app. destruct (I4 t0 l) as [J _]. unfold nestc in J.
     destruct (Hq "enter" t0 l) as [->|(X & _)]; [|congruence].
     destruct (Hq "rel" t0 l) as [->|(_ & _ & X)]; [|congruence]. lia.
   - unfold occ. rewrite !cnt_ev_app. destruct (I4 t0 l) as [_ J]. unfold occ in J.
     destruct (Hq "enter" t0 l) as [->|(X & _)]; [|congruence].
     destruct (Hq "leave" t0 l) as [->|(_ & X & _)]; [|congruence]. lia.
+  - intros t0 l. unfold acqp. rewrite cnt_acq_app, cnt_ev_app, Hqa. specialize (I7 t0 l). unfold acqp in I7.
+    destruct (Hq "enter" t0 l) as [->|(X & _)]; [|congruence]. lia.
 Qed.
 
-Lemma quiet_acc t k o ok : quiet t [EvAcc k o ok].
+Lemma quiet_acc t k o ok : (forall l, acq_is l (EvAcc k o ok) = false) -> quiet t [EvAcc k o ok].
 Proof.
-  intros name t0 l0. left. destruct (Nat.eq_dec t0 t) as [->|H].
-  - apply cnt_ev_tag_acc.
-  - apply cnt_ev_tag_other. congruence.
+  intros Ha. split.
+  - intros name t0 l0. left. destruct (Nat.eq_dec t0 t) as [->|H].
+    + apply cnt_ev_tag_acc.
+    + apply cnt_ev_tag_other. congruence.
+  - intros t0 l0. destruct (Nat.eq_dec t0 t) as [->|H].
+    + rewrite cnt_acq_tag1, Ha. reflexivity.
+    + apply cnt_acq_tag_other. congruence.
 Qed.
 
 Lemma quiet_cli t n args :
   String.eqb n "enter" = false -> String.eqb n "leave" = false -> String.eqb n "rel" = false ->
   quiet t [EvCli n args].
 Proof.
-  intros N1 N2 N3 name t0 l0.
+  intros N1 N2 N3. split; [|intros t0 l0; cbn; destruct (Nat.eqb t t0); reflexivity].
+  intros name t0 l0.
   destruct (String.eqb_spec name "enter") as [->|E1]; [left|
     destruct (String.eqb_spec name "leave") as [->|E2]; [left|
       destruct (String.eqb_spec name "rel") as [->|E3]; [left|right; auto]]].
@@ -263,12 +312,12 @@ Ltac fin := simp; knn; eqbs; subst; try congruence; try lia.
 
 (** an access that changes nothing and whose continuation may use what the invariant says about the value read *)
 Lemma safe_act_read {R} t (f : G -> G * V * list ev) (k : V -> prog R) v Q :
-  (forall g, fst (fst (f g)) = g /\ exists kd o ok, snd (f g) = [EvAcc kd o ok]) ->
+  (forall g, fst (fst (f g)) = g /\ exists kd o ok, snd (f g) = [EvAcc kd o ok] /\ forall l, acq_is l (EvAcc kd o ok) = false) ->
   (forall g a tr, Inv g a tr -> a t = v -> safe t (k (snd (fst (f g)))) v Q) ->
   safe t (Act f k) v Q.
 Proof.
   intros Hf Hk. cbn [Conc.safe]. intros g a tr Hi Hv. unfold view in Hv.
-  destruct (Hf g) as (E & kd & o & ok & Ees). exists a. rewrite E, Ees.
+  destruct (Hf g) as (E & kd & o & ok & Ees & Hna). exists a. rewrite E, Ees.
   split; [apply Inv_quiet; auto using quiet_acc|]. split; [apply frame_refl|].
   unfold view. rewrite Hv. eapply Hk; eauto.
 Qed.
@@ -284,8 +333,8 @@ Proof.
   exists (upd a t (Got l, s)). split; [|split; [apply frame_upd|unfold view; rewrite upd_same; reflexivity]].
   assert (Hh : hold (a t) l > 0) by (rewrite Hv; fin).
   pose proof (inv_others g a tr t l Hi Hh) as Hoth.
-  pose proof Hi as (I1 & I2 & I3 & I4 & I5 & I6). pose proof (I1 _ _ Hh) as Hsp.
-  eapply (step_inv g a tr t l); [exact Hi| | | | | | | | | | |]; rewrite ?Hv in *.
+  pose proof Hi as (I1 & I2 & I3 & I4 & I5 & I6 & I7). pose proof (I1 _ _ Hh) as Hsp.
+  eapply (step_inv g a tr t l); [exact Hi| | | | | | | | | | | |]; rewrite ?Hv in *.
   - intros l' Hl. fin.
   - intros l' Hl. fin.
   - intros l0. rewrite !cnt_ev_tag_acc. fin.
@@ -296,13 +345,14 @@ Proof.
   - intros _. fin.
   - intros t' Ht. fin.
   - intros _. left. fin.
-  - intros l0. destruct Hi as (_ & _ & _ & _ & _ & J6). specialize (J6 t l0). rewrite Hv in J6. fin.
+  - intros l0. destruct Hi as (_ & _ & _ & _ & _ & J6 & _). specialize (J6 t l0). rewrite Hv in J6. fin.
+  - intros l0. rewrite cnt_acq_tag1, acq_is_faa, cnt_ev_tag_acc. unfold aq. fin.
 Qed.
 
 Lemma safe_try_taken t l s : safe t (try_taken (S t) l) (Idle, s) (Qacq l s).
 Proof.
   unfold try_taken. apply safe_act_read.
-  - intros g. cbn. eauto.
+  - intros g. cbn. split; auto. do 3 eexists. split; [reflexivity|intros; reflexivity].
   - intros g a tr (_ & _ & I3 & _) Hv. cbn [a_ld_owner fst snd].
     destruct (Nat.eqb_spec (owner g l) (S t)) as [E|E].
     + apply safe_faa. specialize (I3 _ _ E). rewrite Hv in I3. fin.
@@ -321,7 +371,7 @@ Proof.
   destruct (Nat.eqb_spec (spin g l) 0) as [E|E]; cbn [fst snd].
   - exists (upd a t (Acq l, s)). split; [|split; [apply frame_upd|unfold view; rewrite upd_same; exact Hok]].
     pose proof (inv_spin0 g a tr l Hi E) as Hz.
-    eapply (step_inv g a tr t l); [exact Hi| | | | | | | | | | |]; rewrite ?Hv in *.
+    eapply (step_inv g a tr t l); [exact Hi| | | | | | | | | | | |]; rewrite ?Hv in *.
     + intros l' Hl. fin.
     + intros l' Hl. fin.
     + intros l0. rewrite !cnt_ev_tag_acc. fin.
@@ -332,8 +382,9 @@ Proof.
     + intros Ho. destruct Hi as (_ & _ & I3 & _). specialize (I3 t l). rewrite Hv in I3. fin.
     + intros t' Ht. fin.
     + intros _. left. pose proof (K_nonneg s l). fin.
-    + intros l0. destruct Hi as (_ & _ & _ & _ & _ & J6). specialize (J6 t l0). rewrite Hv in J6. fin.
-  - exists a. split; [apply Inv_quiet; auto using quiet_acc|]. split; [apply frame_refl|].
+    + intros l0. destruct Hi as (_ & _ & _ & _ & _ & J6 & _). specialize (J6 t l0). rewrite Hv in J6. fin.
+    + intros l0. rewrite cnt_acq_tag1, acq_is_cas, cnt_ev_tag_acc. unfold aq. fin.
+  - exists a. split; [apply Inv_quiet; auto; apply quiet_acc; intros; reflexivity|]. split; [apply frame_refl|].
     unfold view. rewrite Hv. exact Hfail.
 Qed.
 
@@ -343,7 +394,7 @@ Proof.
   induction fuel as [|f IH]; intros t l s; split; cbn [acq_outer acq_inner]; try (cbn; reflexivity).
   - apply safe_cas; cbn [Nat.eqb]; [cbn; reflexivity|apply IH].
   - apply safe_act_read.
-    + intros g. cbn. eauto.
+    + intros g. cbn. split; auto. do 3 eexists. split; [reflexivity|intros; reflexivity].
     + intros g a tr _ _. cbn [a_ld_spin fst snd]. destruct (Nat.eqb (spin g l) 0); apply IH.
 Qed.
 
@@ -358,8 +409,8 @@ Lemma safe_take t l s : safe t (take (S t) l) (Acq l, s) (Qacq l s).
 Proof.
   unfold take. cbn [Conc.safe]. intros g a tr Hi Hv. unfold view in Hv. cbn [a_st_owner fst snd].
   exists (upd a t (Got l, s)). split; [|split; [apply frame_upd|unfold view; rewrite upd_same; reflexivity]].
-  pose proof Hi as (I1 & I2 & I3 & I4 & I5 & I6).
-  eapply (step_inv g a tr t l); [exact Hi| | | | | | | | | | |]; rewrite ?Hv in *.
+  pose proof Hi as (I1 & I2 & I3 & I4 & I5 & I6 & I7).
+  eapply (step_inv g a tr t l); [exact Hi| | | | | | | | | | | |]; rewrite ?Hv in *.
   - intros l' Hl. fin.
   - intros l' Hl. fin.
   - intros l0. rewrite !cnt_ev_tag_acc. fin.
@@ -373,7 +424,8 @@ Proof.
     left. destruct (Nat.eq_dec t0 t) as [->|N]; [rewrite Hv in H0; fin|].
     exfalso. assert (Hme : hold (a t) l > 0) by (rewrite Hv; pose proof (K_nonneg s l); fin).
     apply N. eapply I2; eauto.
-  - intros l0. destruct Hi as (_ & _ & _ & _ & _ & J6). specialize (J6 t l0). rewrite Hv in J6. fin.
+  - intros l0. destruct Hi as (_ & _ & _ & _ & _ & J6 & _). specialize (J6 t l0). rewrite Hv in J6. fin.
+  - intros l0. rewrite cnt_acq_tag1, cnt_ev_tag_acc. unfold aq. cbn [acq_is obj_owner]. fin.
 Qed.
 
 Lemma safe_lock fuel t l s : safe t (lock fuel (S t) l) (Idle, s) (Qacq l s).
@@ -404,8 +456,8 @@ Ltac streqs :=
 
 Ltac emit_step g a tr t l v' Hi Hv :=
   exists (upd a t v'); split; [|split; [apply frame_upd|unfold view; rewrite upd_same]];
-  [pose proof Hi as (I1 & I2 & I3 & I4 & I5 & I6);
-   eapply (step_inv g a tr t l); [exact Hi| | | | | | | | | | |]; rewrite ?Hv in *; unfold zl;
+  [pose proof Hi as (I1 & I2 & I3 & I4 & I5 & I6 & I7);
+   eapply (step_inv g a tr t l); [exact Hi| | | | | | | | | | | |]; rewrite ?Hv in *; unfold zl;
    [ intros l' Hl; split; reflexivity
    | intros l' Hl; fin
    | intros l0; rewrite !cnt_ev_tag_cli1; streqs; fin
@@ -419,7 +471,8 @@ Ltac emit_step g a tr t l v' Hi Hv :=
      [left; rewrite Hv in H0; fin
      |right; split; [exact H|]; destruct (Z_gt_le_dec (hold (a t) l) 0) as [X|X];
       [exfalso; apply N; eapply I2; eauto|rewrite Hv in X; exact X]]
-   | intros l0; specialize (I6 t l0); rewrite Hv in I6; pose proof (K_nonneg (snd v') l0); fin ]
+   | intros l0; specialize (I6 t l0); rewrite Hv in I6; pose proof (K_nonneg (snd v') l0); fin
+   | intros l0; rewrite cnt_acq_tag1, !cnt_ev_tag_cli1; streqs; unfold aq; cbn [acq_is]; fin ]
   |].
 
 Lemma safe_emit_enter {R} t l s (k : prog R) Q :
@@ -446,14 +499,15 @@ Qed.
 (** *** unlock *)
 Ltac acc_step g a tr t l v' Hi Hv :=
   exists (upd a t v'); split; [|split; [apply frame_upd|unfold view; rewrite upd_same]];
-  [pose proof Hi as (I1 & I2 & I3 & I4 & I5 & I6);
-   eapply (step_inv g a tr t l); [exact Hi| | | | | | | | | | |]; rewrite ?Hv in *;
+  [pose proof Hi as (I1 & I2 & I3 & I4 & I5 & I6 & I7);
+   eapply (step_inv g a tr t l); [exact Hi| | | | | | | | | | | |]; rewrite ?Hv in *;
    [ intros l' Hl; fin
    | intros l' Hl; fin
    | intros l0; rewrite !cnt_ev_tag_acc; fin
    | intros l0; rewrite !cnt_ev_tag_acc; fin
    | | | | | |
-   | intros l0; specialize (I6 t l0); rewrite Hv in I6; fin ]
+   | intros l0; specialize (I6 t l0); rewrite Hv in I6; fin
+   | intros l0; rewrite cnt_acq_tag1, cnt_ev_tag_acc; unfold aq; cbn [acq_is obj_owner obj_spin]; fin ]
   |].
 
 Definition Qrel (l : nat) (s : list nat) : unit -> tv -> Prop := fun _ v => v = (Rel l, l :: s).
@@ -507,7 +561,7 @@ Qed.
 Lemma safe_unlock t l s : safe t (unlock l) (Left l, l :: s) (Qrel l s).
 Proof.
   unfold unlock. apply safe_act_read.
-  - intros g. cbn. eauto.
+  - intros g. cbn. split; auto. do 3 eexists. split; [reflexivity|intros; reflexivity].
   - intros g a tr (I1 & _) Hv. cbn [a_ld_spin fst snd].
     specialize (I1 t l). rewrite Hv in I1.
     assert (Hn : Z.of_nat (spin g l) = 1 + K s l) by fin.
@@ -525,7 +579,7 @@ Proof.
   apply safe_emit_quiet; try reflexivity.
   apply Conc.safe_bind. eapply Conc.safe_weaken; [|apply safe_acquire_by].
   intros [|] v Hq; cbn in Hq; subst v.
-  - apply safe_emit_enter. apply safe_act_read; [intros g; cbn; eauto|].
+  - apply safe_emit_enter. apply safe_act_read; [intros g; cbn; split; auto; do 3 eexists; split; [reflexivity|intros; reflexivity]|].
     intros g a tr _ _. cbn [a_touch fst snd].
     apply Conc.safe_bind. eapply Conc.safe_weaken; [|apply IH].
     intros [] v Hq. unfold Qidle in Hq. subst v.
@@ -546,7 +600,7 @@ Qed.
 
 Lemma safe_thread fuel t os : safe t (thread_prog fuel t os) (Idle, []) (@Conc.QTrue tv).
 Proof.
-  unfold thread_prog. apply safe_act_read; [intros g; cbn; eauto|].
+  unfold thread_prog. apply safe_act_read; [intros g; cbn; split; auto; do 3 eexists; split; [reflexivity|intros; reflexivity]|].
   intros g a tr _ _. eapply Conc.safe_weaken; [|apply safe_run_ops]. intros; exact I.
 Qed.
 
@@ -575,7 +629,7 @@ Theorem reentrant_mutex fuel ths c :
   forall l t t', (0 <= occ t l (Conc.trace c)) /\
                  (occ t l (Conc.trace c) > 0 -> occ t' l (Conc.trace c) > 0 -> t = t').
 Proof.
-  intros Hr l t t'. destruct (Conc.reach_Inv (init_ok fuel ths) Hr) as (a & I1 & I2 & I3 & I4 & I5 & I6).
+  intros Hr l t t'. destruct (Conc.reach_Inv (init_ok fuel ths) Hr) as (a & I1 & I2 & I3 & I4 & I5 & I6 & I7).
   destruct (I4 t l) as [_ E]. destruct (I4 t' l) as [_ E']. rewrite E, E'. split; [apply I6|].
   intros H H'. apply (I2 t t' l).
   - clear E E' H'. unfold ins, hold in *. destruct (a t) as [[] s]; cbn [fst snd] in *; unfold d in *; eqbs; lia.
@@ -591,7 +645,7 @@ Theorem reentrant_owner_release fuel ths c :
     occ t l (Conc.trace c) <= nestc t l (Conc.trace c) /\
     forall t', t' <> t -> occ t' l (Conc.trace c) = 0.
 Proof.
-  intros Hr l t H. destruct (Conc.reach_Inv (init_ok fuel ths) Hr) as (a & I1 & I2 & I3 & I4 & I5 & I6).
+  intros Hr l t H. destruct (Conc.reach_Inv (init_ok fuel ths) Hr) as (a & I1 & I2 & I3 & I4 & I5 & I6 & I7).
   destruct (I4 t l) as [En E]. rewrite E in *. rewrite En.
   assert (Hh : hold (a t) l > 0 /\ ins (a t) l <= hold (a t) l <= ins (a t) l + 1 /\ ins (a t) l <= K (snd (a t)) l).
   { clear E En. unfold ins, hold in *. destruct (a t) as [[] s]; cbn [fst snd] in *; unfold d in *; eqbs; lia. }
@@ -611,4 +665,17 @@ Proof.
   intros Hr l Hs t. destruct (reentrant_mutex fuel ths c Hr l t t) as [H0 _].
   destruct (Z_gt_le_dec (occ t l (Conc.trace c)) 0) as [H|H]; [|lia].
   destruct (reentrant_owner_release fuel ths c Hr l t H) as [Hb _]. rewrite Hs in Hb. cbn in Hb. lia.
+Qed.
+
+(** and the lock word is non-zero only when some thread owns the lock (more lock() than unlock() calls have
+    returned: [nestc] > 0) or is inside lock()/try_lock() having just taken the word ([acqp] > 0): together with
+    [reentrant_owner_release] the word goes back to 0 exactly at the owner's last unlock *)
+Theorem reentrant_word_nonzero_only_if_used fuel ths c :
+  Conc.reach (init_cfg fuel ths) c ->
+  forall l, (spin (Conc.shared c) l > 0)%nat ->
+    exists t, nestc t l (Conc.trace c) > 0 \/ acqp t l (Conc.trace c) > 0.
+Proof.
+  intros Hr l Hs. destruct (Conc.reach_Inv (init_ok fuel ths) Hr) as (a & I1 & I2 & I3 & I4 & I5 & I6 & I7).
+  destruct (I5 l Hs) as [t Ht]. exists t. destruct (I4 t l) as [En _]. rewrite En, I7.
+  unfold hold, aq in *. destruct (a t) as [[] s]; cbn [fst snd] in *; unfold d in *; eqbs; lia.
 Qed.
